@@ -134,3 +134,13 @@ Theorem C01_waiting_reader_makes_progress : forall cap sched,
   exists n, (n <= 4 * length (s_segs s) + 2)%nat /\ t_got (s_rd (riter n s)) = t_got (s_rd s) + 1.
 Proof. exact reader_progress. Qed.
 Print Assumptions C01_waiting_reader_makes_progress.
+
+(* The only way to go round without delivering or parking is at the end of a full active segment that has
+   not been rolled yet: everything the log holds has then been delivered. *)
+Theorem C01_spinning_reader_has_read_everything : forall cap sched,
+  let s := trun tcode (tinit cap) sched in
+  t_waiting (s_rd s) = 2%N -> t_seg (s_rd s) = last_idx (s_segs s) ->
+  full (nth_sg (s_segs s) (last_idx (s_segs s))) = true /\
+  t_pos (s_rd s) = g_len (nth_sg (s_segs s) (last_idx (s_segs s))).
+Proof. exact spinning_reader_has_read_everything. Qed.
+Print Assumptions C01_spinning_reader_has_read_everything.
